@@ -125,16 +125,24 @@ def VT.newline (vt : VT) : VT :=
   if vt.cy + 1 < vt.h then { vt with cx := 0, cy := vt.cy + 1, pending := false }
   else { vt.scrollUp with cx := 0, pending := false }
 
-/-- place a glyph at the cursor, then advance according to the end-of-line behaviour -/
-def VT.print (vt : VT) (bytes : List Byte) : VT :=
-  let vt := if vt.pending then vt.newline else vt
+/-- a pending wrap is resolved before the next glyph is placed -/
+def VT.resolvePending (vt : VT) : VT := if vt.pending then vt.newline else vt
+
+/-- put a glyph into the cell under the cursor and record it in the log -/
+def VT.place (vt : VT) (bytes : List Byte) : VT :=
   let cell : Cell := { bytes := bytes, cs := if vt.utf8 then .utf8 else vt.g0, rend := vt.rend }
-  let vt := { vt with log := vt.log ++ [(vt.cx, vt.cy, cell)], cells := setCell vt.cells vt.alt vt.cx vt.cy cell }
+  { vt with log := vt.log ++ [(vt.cx, vt.cy, cell)], cells := setCell vt.cells vt.alt vt.cx vt.cy cell }
+
+/-- move on after a glyph according to the end-of-line behaviour -/
+def VT.advance (vt : VT) : VT :=
   if vt.cx + 1 < vt.w then { vt with cx := vt.cx + 1 }
   else match vt.wrap with
     | .deferred => { vt with pending := true }
     | .immediate => vt.newline
     | .none => vt
+
+/-- place a glyph at the cursor, then advance according to the end-of-line behaviour -/
+def VT.print (vt : VT) (bytes : List Byte) : VT := ((vt.resolvePending).place bytes).advance
 
 /-- CSI parameter `i` with default (an absent or zero parameter takes the default) -/
 def VT.param (ps : List Nat) (i : Nat) (dflt : Nat) : Nat :=
